@@ -46,7 +46,7 @@ use crate::genmsg::*;
 use dlt_core::dlt::*;
 use dlt_core::filtering::DltFilterConfig;
 
-fn msg_opts_for(rng: &mut Rng, i: usize) -> MsgOpts {
+pub fn msg_opts_for(rng: &mut Rng, i: usize) -> MsgOpts {
     let mut o = MsgOpts::default();
     o.kind = Some(match i % 8 {
         0 | 1 | 2 => PKind::Verbose,
@@ -865,6 +865,8 @@ pub fn generate(prop: &str, seed: u64, thorough: bool) -> Cases {
         "C04" => gen_c04(&mut rng, thorough, &mut out),
         "C05" => gen_c05(&mut rng, thorough, &mut out),
         "C06" => gen_c06(&mut rng, thorough, &mut out),
+        "C07" => crate::gen2::gen_readers(&mut rng, thorough, 40, &mut out),
+        "C08" => crate::gen2::gen_readers(&mut rng, thorough, 41, &mut out),
         "C09" => gen_c09(&mut rng, thorough, &mut out),
         "C10" => gen_c10(&mut rng, thorough, &mut out),
         "C13" => gen_c13(&mut rng, thorough, &mut out),
